@@ -120,6 +120,7 @@ class Gen:
                 used.add(key(n))
                 v = variant(self.r, n)
                 out.append(v if v != n else (n.swapcase() if n.swapcase().lower() == n.lower() and py_lower_ok(n.swapcase()) else n))
+        pool = [n for n in pool if key(n) not in used]
         for n in self.r.sample(pool, min(k - len(out), len(pool))):
             if key(n) not in used:
                 used.add(key(n))
@@ -257,8 +258,25 @@ class Gen:
             if self.dup is not None:
                 # duplicate column names (condition join): PySpark's withColumnRenamed renames every column of that name;
                 # any other reference to the name would be ambiguous, so the program ends here
-                ops.append(("withColumnRenamed", self.ref(self.dup, ticks_allowed=False), (self.fresh(ns, 1) or ["Zq"])[0]))
-                break
+                # the operations that map old names to new ones, on a frame with a repeated name: rename (all of that name),
+                # toDF (by position), drop (all of that name)
+                kk = r.random()
+                if kk < 0.4:
+                    ops.append(("withColumnRenamed", self.ref(self.dup, ticks_allowed=False), (self.fresh(ns, 1) or ["Zq"])[0]))
+                    break
+                if kk < 0.75:
+                    op = ("toDF", self.fresh([], len(ns)))
+                    if len(op[1]) != len(ns):
+                        break
+                else:
+                    op = ("drop", [self.ref(self.dup, ticks_allowed=False)])
+                ops.append(op)
+                ns = py_spec_step(op, ns)
+                self.dup, jstate, right = None, None, set()
+                self.lost = []
+                if not ns or r.random() < 0.5:
+                    break
+                continue
             op = self.step(ns, ops[-1][0] if ops else None)
             if jstate:
                 op = self.avoid_right_items(op, right)
@@ -542,6 +560,10 @@ CORPUS = [
     # duplicate column names after a condition join: withColumnRenamed renames every column of that name
     {"names": ["k", "Name", "v"], "ops": [("joinOn", ["id", "k", "tag"], "k", "ID"), ("withColumnRenamed", "K", "Key")]},
     {"names": ["c d", "AB"], "ops": [("joinOn", ["id", "c d"], "ab", "id"), ("withColumnRenamed", "C D", "x y")]},
+    {"names": ["id", "lv"], "ops": [("joinOn", ["id", "rv"], "id", "ID"), ("toDF", ["id", "lv", "rid", "rv"]),
+                                     ("select", [("str", "lv"), ("str", "RV")])]},
+    {"names": ["K", "v"], "ops": [("joinOn", ["id", "K"], "k", "ID"), ("drop", ["k"])]},
+    {"names": ["c d", "AB"], "ops": [("joinOn", ["id", "c d"], "ab", "id"), ("toDF", ["P q", "Ab", "Id", "1x"])]},
     # stale entries of the display-name map: a column the frame lost comes back from elsewhere in another spelling
     {"names": ["Status", "AB"], "ops": [("drop", ["status"]), ("join", ["ab", "STATUS"], ["ab"])]},
     {"names": ["Status", "AB"], "ops": [("select", [("str", "ab")]), ("joinOn", ["kk", "STATUS"], "AB", "KK")]},
